@@ -42,6 +42,13 @@ type C02Case struct {
 	RangeNs  int64        `json:"range_ns,omitempty"`
 	OffsetNs int64        `json:"offset_ns,omitempty"`
 	Params   model.Params `json:"params"`
+	// Stage: "" | logfmt | regexp | label_format - a stage that, on some lines, writes a label
+	// named like one of the container's own labels.
+	Stage string `json:"stage,omitempty"`
+	// Sel2, when set (metric queries), is the selector of a second range aggregation added
+	// to the first: two selections are resolved by one Querier.
+	Sel2    []gen.Matcher `json:"sel2,omitempty"`
+	UseSel2 bool          `json:"use_sel2,omitempty"`
 }
 
 // c02Labels is the reference label derivation of a container: the documented built-in labels
@@ -71,13 +78,39 @@ func c02Labels(c C02Ctr) map[string]string {
 func c02Query(c C02Case) string {
 	sel := gen.PrintLog(&gen.LogQuery{Sel: c.Sel}, gen.Plain{})
 	if !c.Metric {
+		switch c.Stage {
+		case "logfmt":
+			return sel + " | logfmt"
+		case "regexp":
+			return sel + ` | regexp "container=(?P<container>\\S+) container_state=(?P<container_state>\\S+)"`
+		case "label_format":
+			return sel + ` | logfmt n, origin | label_format container_image="{{ .n }}"`
+		}
 		return sel
 	}
-	q := "count_over_time(" + sel + "[" + strconv.FormatInt(c.RangeNs/1e6, 10) + "ms]"
-	if c.OffsetNs > 0 {
-		q += " offset " + strconv.FormatInt(c.OffsetNs/1e6, 10) + "ms"
+	rng := func(sel string) string {
+		q := "count_over_time(" + sel + "[" + strconv.FormatInt(c.RangeNs/1e6, 10) + "ms]"
+		if c.OffsetNs > 0 {
+			q += " offset " + strconv.FormatInt(c.OffsetNs/1e6, 10) + "ms"
+		}
+		return q + ")"
 	}
-	return q + ")"
+	if c.UseSel2 {
+		return rng(sel) + " + " + rng(gen.PrintLog(&gen.LogQuery{Sel: c.Sel2}, gen.Plain{}))
+	}
+	return rng(sel)
+}
+
+// c02Line is line i of container id: logfmt, every third line also writes labels that shadow
+// the container's own ones.
+func c02Line(id string, i int) (string, map[string]string) {
+	pairs := map[string]string{"n": strconv.Itoa(i), "origin": id}
+	line := fmt.Sprintf("n=%d origin=%s", i, id)
+	if i%3 == 1 {
+		line += " container=sidecar container_state=restarting tier=shadow"
+		pairs["container"], pairs["container_state"], pairs["tier"] = "sidecar", "restarting", "shadow"
+	}
+	return line, pairs
 }
 
 func c02Check(c C02Case) (r evid.Result) {
@@ -89,7 +122,8 @@ func c02Check(c C02Case) (r evid.Result) {
 	for _, ct := range c.Ctrs {
 		var lines []dl.Line
 		for i := 0; i < ct.Lines; i++ {
-			lines = append(lines, dl.Line{TS: mid + int64(i), Msg: fmt.Sprintf("line %d of <%s>", i, ct.ID)})
+			text, _ := c02Line(ct.ID, i)
+			lines = append(lines, dl.Line{TS: mid + int64(i), Msg: text})
 		}
 		labels := map[string]string{}
 		for k, v := range ct.Labels {
@@ -119,6 +153,20 @@ func c02Check(c C02Case) (r evid.Result) {
 	if nWant > 1 {
 		d.Waves = []int{nWant}
 	}
+	want2 := map[string]bool{}
+	if c.Metric && c.UseSel2 {
+		for _, ct := range c.Ctrs {
+			if ok, _ := model.MatchLabels(c.Sel2, labelsOf[ct.ID]); ok {
+				want2[ct.ID] = true
+			}
+		}
+		if nWant <= 1 {
+			d.Waves = []int{nWant}
+		}
+		d.Waves = append(d.Waves, len(want2))
+	}
+	r.Class(c.UseSel2 && c.Metric, "two-selections")
+	r.Class(c.Stage != "", "stage="+c.Stage)
 	r.Class(absent, "matcher-on-absent-label")
 	r.Class(nWant > 0 && nWant < len(c.Ctrs), "proper-subset")
 	r.Class(nWant == 0, "none-selected")
@@ -137,12 +185,36 @@ func c02Check(c C02Case) (r evid.Result) {
 		return r
 	}
 	got := map[string]bool{}
-	for _, call := range rep.Calls {
-		if got[call.ID] {
-			r.Violation = evid.Viol("C02/read-twice", "query %s: container %s was read twice", query, call.ID)
+	if c.Metric && c.UseSel2 {
+		// Two selections: the multiset of reads is selection(1) + selection(2).
+		gotN, wantN := map[string]int{}, map[string]int{}
+		for _, call := range rep.Calls {
+			gotN[call.ID]++
+		}
+		for id := range want {
+			wantN[id]++
+		}
+		for id := range want2 {
+			wantN[id]++
+		}
+		if fmt.Sprint(gotN) != fmt.Sprint(wantN) {
+			r.Violation = evid.Viol("C02/wrong-containers-two-selections", "query %s read containers %v, want %v", query, gotN, wantN)
 			return r
 		}
-		got[call.ID] = true
+		for id := range gotN {
+			got[id] = true
+		}
+		for id := range want2 {
+			want[id] = true
+		}
+	} else {
+		for _, call := range rep.Calls {
+			if got[call.ID] {
+				r.Violation = evid.Viol("C02/read-twice", "query %s: container %s was read twice", query, call.ID)
+				return r
+			}
+			got[call.ID] = true
+		}
 	}
 	if fmt.Sprint(sortedKeys(got)) != fmt.Sprint(sortedKeys(want)) {
 		r.Violation = evid.Viol("C02/wrong-containers", "query %s read containers %v, want %v (inventory labels: %v)", query, sortedKeys(got), sortedKeys(want), labelsOf)
@@ -195,8 +267,9 @@ func c02Check(c C02Case) (r evid.Result) {
 	count := map[string]int{}
 	for _, e := range canon.Flatten(streams) {
 		id := ""
-		if i := strings.Index(e.Line, "<"); i >= 0 {
-			id = strings.TrimSuffix(e.Line[i+1:], ">")
+		lineNo := 0
+		if _, err := fmt.Sscanf(e.Line, "n=%d origin=%s", &lineNo, &id); err != nil {
+			id = ""
 		}
 		ml, ok := labelsOf[id]
 		if !ok {
@@ -207,6 +280,20 @@ func c02Check(c C02Case) (r evid.Result) {
 		wantLabels := map[string]string{"msg": e.Line}
 		for k, v := range ml {
 			wantLabels[k] = v
+		}
+		_, pairs := c02Line(id, lineNo)
+		switch c.Stage {
+		case "logfmt":
+			for k, v := range pairs {
+				wantLabels[k] = v
+			}
+		case "regexp":
+			if v, ok := pairs["container"]; ok {
+				wantLabels["container"], wantLabels["container_state"] = v, pairs["container_state"]
+			}
+		case "label_format":
+			wantLabels["n"], wantLabels["origin"] = pairs["n"], pairs["origin"]
+			wantLabels["container_image"] = pairs["n"]
 		}
 		if canon.LabelKey(e.Labels) != canon.LabelKey(wantLabels) {
 			r.Violation = evid.Viol("C02/wrong-origin-labels", "query %s: line %q carries labels {%s}, its container has {%s}", query, e.Line, canon.LabelKey(e.Labels), canon.LabelKey(wantLabels))
@@ -282,7 +369,7 @@ func c02Gen(t *rapid.T) C02Case {
 			}
 			ct.Labels[k] = gen.BS(rapid.SampledFrom(dockerVals).Draw(t, "dockerval"))
 		}
-		ct.Lines = rapid.IntRange(0, 3).Draw(t, "lines")
+		ct.Lines = rapid.IntRange(0, 5).Draw(t, "lines")
 		c.Ctrs = append(c.Ctrs, ct)
 	}
 	// Selector over built-in labels, sanitised Docker labels and absent labels.
@@ -339,8 +426,17 @@ func c02Gen(t *rapid.T) C02Case {
 	start := rapid.Int64Range(978307200, 7258118400-100000).Draw(t, "start-sec")*1e9 + rapid.Int64Range(0, 999999999).Draw(t, "start-ns")
 	span := rapid.SampledFrom([]int64{1, 999999999, 1e9, 1500000000, 60e9, 3600e9, 86400e9}).Draw(t, "span")
 	c.Params = model.Params{Start: start, End: start + span, Step: 1e9, Limit: -1}
+	c.Stage = rapid.SampledFrom([]string{"", "", "logfmt", "regexp", "label_format"}).Draw(t, "stage")
 	if rapid.IntRange(0, 3).Draw(t, "metric") == 0 {
 		c.Metric = true
+		c.Stage = ""
+		if rapid.Bool().Draw(t, "two-selections") {
+			c.UseSel2 = true
+			nm2 := rapid.SampledFrom([]int{0, 1, 1, 2}).Draw(t, "nmatchers2")
+			for i := 0; i < nm2; i++ {
+				c.Sel2 = append(c.Sel2, datagen.GenMatcher(t, fields, "sel2"))
+			}
+		}
 		c.RangeNs = rapid.SampledFrom([]int64{1e9, 1500e6, 60e9, 250e6}).Draw(t, "range")
 		c.OffsetNs = rapid.SampledFrom([]int64{0, 0, 1e9, 700e6, 3600e9}).Draw(t, "offset")
 		steps := rapid.Int64Range(0, 5).Draw(t, "steps")
